@@ -44,6 +44,21 @@ Theorem C13_every_delivery_through_chain :
 Proof. exact C13_every_delivery_through_chain_thm. Qed.
 Print Assumptions C13_every_delivery_through_chain.
 
+(* inside the chain the Context shows the sender of that delivery: the
+   (payload, sender) pair a user handler sees is that of an envelope accepted
+   into the inbox during the run; hence the sender is set only if some handler
+   sends that payload with [ctx.Send] (ASend: sender = the actor itself) and
+   unset only if it is sent without a sender (ASendNil, or an external send) —
+   also for messages drained behind a graceful pill or replayed after a restart *)
+Theorem C13_context_shows_sender :
+  forall f c xs s t, stopped_safe c -> run f c xs = (s, t) -> out_of_fuel t = false ->
+  forall i mw n sd, In (Recv i mw (LUser n) sd) t ->
+  In (Enq {| emsg := User n; esnd := sd |}) t /\
+  (if sd then exists i' m, In (ASend n) (scr c i' m)
+   else (exists i' m, In (ASendNil n) (scr c i' m)) \/ In (XSend n) xs).
+Proof. exact C13_context_shows_sender_thm. Qed.
+Print Assumptions C13_context_shows_sender.
+
 (** * C04 — lifecycle protocol *)
 
 (* the deliveries form the word: per incarnation Initialized, Started, user
@@ -241,7 +256,8 @@ Print Assumptions C07_pills_invisible.
    within FUEL, payloads pairwise distinct (only for the last clause of
    oracle_c05), the harness's "alien" code is not a payload (only for
    oracle_c07). *)
-Theorem C13_oracle_sound : forall c, oracle_c13 (selfcase c) = true.
+Theorem C13_oracle_sound : forall c,
+  stopped_safe (cfg_of c) -> out_of_fuel (snd (model c)) = false -> oracle_c13 (selfcase c) = true.
 Proof. exact oracle_c13_sound. Qed.
 Print Assumptions C13_oracle_sound.
 
